@@ -203,6 +203,10 @@ def run_check(pid, tier, seed, repo):
     for r in batch.requests:
         ops[r["op"]] = ops.get(r["op"], 0) + 1
     ctx.stats["correspondence_ops"] = ops
+    try:
+        ctx.stats["correspondence_distribution"] = batch.distribution()
+    except Exception:  # noqa
+        pass
     for d in disagreements[:50]:
         ctx.focus.append(d.get("meta"))
     if disagreements:
